@@ -12,6 +12,7 @@ import (
 	"encoding/json"
 	"fmt"
 	"go/ast"
+	"go/parser"
 	"go/printer"
 	"go/token"
 	"go/types"
@@ -44,10 +45,83 @@ func fp(n ast.Node) string {
 	return hex.EncodeToString(h[:])[:10]
 }
 
+// sessionFacts reads build/build.go: the map-typed fields of Session, and the fields that BuildProject resets
+// (`s.X = make(...)`) before its first other statement.
+func sessionFacts(repo string) {
+	fset := token.NewFileSet()
+	f, err := parser.ParseFile(fset, filepath.Join(repo, "build", "build.go"), nil, 0)
+	if err != nil {
+		fmt.Fprintln(os.Stderr, err)
+		os.Exit(2)
+	}
+	mapFields, resets := []string{}, []string{}
+	for _, d := range f.Decls {
+		switch d := d.(type) {
+		case *ast.GenDecl:
+			for _, sp := range d.Specs {
+				ts, ok := sp.(*ast.TypeSpec)
+				if !ok || ts.Name.Name != "Session" {
+					continue
+				}
+				if st, ok := ts.Type.(*ast.StructType); ok {
+					for _, fl := range st.Fields.List {
+						if _, isMap := fl.Type.(*ast.MapType); isMap {
+							for _, n := range fl.Names {
+								mapFields = append(mapFields, n.Name)
+							}
+						}
+					}
+				}
+			}
+		case *ast.FuncDecl:
+			if d.Name.Name != "BuildProject" || d.Recv == nil || d.Body == nil {
+				continue
+			}
+			recv := ""
+			if len(d.Recv.List) > 0 && len(d.Recv.List[0].Names) > 0 {
+				recv = d.Recv.List[0].Names[0].Name
+			}
+			for _, st := range d.Body.List {
+				as, ok := st.(*ast.AssignStmt)
+				if !ok || as.Tok != token.ASSIGN || len(as.Lhs) != 1 || len(as.Rhs) != 1 {
+					break
+				}
+				sel, ok := as.Lhs[0].(*ast.SelectorExpr)
+				if !ok {
+					break
+				}
+				id, ok := sel.X.(*ast.Ident)
+				if !ok || id.Name != recv {
+					break
+				}
+				call, ok := as.Rhs[0].(*ast.CallExpr)
+				if !ok {
+					break
+				}
+				fn, ok := call.Fun.(*ast.Ident)
+				if !ok || fn.Name != "make" || len(call.Args) != 1 {
+					break
+				}
+				if _, isMap := call.Args[0].(*ast.MapType); !isMap {
+					break
+				}
+				resets = append(resets, sel.Sel.Name)
+			}
+		}
+	}
+	sort.Strings(mapFields)
+	sort.Strings(resets)
+	json.NewEncoder(os.Stdout).Encode(map[string][]string{"map_fields": mapFields, "reset_by_BuildProject": resets})
+}
+
 func main() {
 	repo := os.Getenv("VERIF_REPO")
 	if repo == "" {
 		repo = "/repo"
+	}
+	if len(os.Args) > 1 && os.Args[1] == "session" {
+		sessionFacts(repo)
+		return
 	}
 	cfg := &packages.Config{
 		Mode: packages.NeedName | packages.NeedFiles | packages.NeedCompiledGoFiles | packages.NeedSyntax | packages.NeedTypes | packages.NeedTypesInfo | packages.NeedImports | packages.NeedDeps,
